@@ -4,6 +4,7 @@ import SqiGen.Tables1
 import SqiGen.Tables3
 import SqiGen.Tables5
 import SqiGen.VerifConsts
+import SqiGen.EvenGuard
 
 namespace SqiModel.Verify
 
@@ -23,6 +24,7 @@ def L1 : Lvl where
   hintLoQ := SqiGen.VerifConsts.hintLoAbove
   cols4 := SqiGen.L1.STRATEGY4_cols
   cols2 := SqiGen.L1.strategies_cols
+  evenNaive := SqiGen.EvenGuard.naive
   strat4 := SqiGen.L1.STRATEGY4
   strat2 := SqiGen.L1.strategies
 
@@ -42,6 +44,7 @@ def L3 : Lvl where
   hintLoQ := SqiGen.VerifConsts.hintLoAbove
   cols4 := SqiGen.L3.STRATEGY4_cols
   cols2 := SqiGen.L3.strategies_cols
+  evenNaive := SqiGen.EvenGuard.naive
   strat4 := SqiGen.L3.STRATEGY4
   strat2 := SqiGen.L3.strategies
 
@@ -61,6 +64,7 @@ def L5 : Lvl where
   hintLoQ := SqiGen.VerifConsts.hintLoAbove
   cols4 := SqiGen.L5.STRATEGY4_cols
   cols2 := SqiGen.L5.strategies_cols
+  evenNaive := SqiGen.EvenGuard.naive
   strat4 := SqiGen.L5.STRATEGY4
   strat2 := SqiGen.L5.strategies
 
